@@ -128,9 +128,13 @@ def gen_trace(recipe):
       if strategy.startswith('max'):
         cp['min_rate'] = min_rate
       if c % 2 == 1:
-        cp = last_cp            # the SAME dict object is handed to a second fit (it must not have been modified)
-        strategy = cp['strategy']; beta = cp.get('beta', beta); min_rate = cp.get('min_rate', min_rate)
-      last_cp = cp
+        # the SAME dict object is handed to a second fit; what the user asked for is what they put in it
+        # (the harness keeps its own record, the code gets the user's object)
+        cp, intended = last_cp
+        strategy = intended['strategy']; beta = intended.get('beta', beta); min_rate = intended.get('min_rate', min_rate)
+      else:
+        intended = dict(cp)
+      last_cp = (cp, intended)
       est2 = gen.CLS[name](**opts)
       pairs, lab = tr['fit_args']
       if c % 2 == 1 and events and events[-1].get('cp_obj') is not None:
